@@ -28,9 +28,12 @@ def specs(tier):
 
 
 def run(tier, seed, t0):
-    res = kani.run_harnesses("C07", specs(tier), per_timeout=900 if tier == "quick" else 3600)
+    import c07_m
+    from obl import run_parallel
+    res = run_parallel(c07_m.jobs(tier, seed), nproc=14)
+    res += kani.run_harnesses("C07", specs(tier), per_timeout=900 if tier == "quick" else 3600)
     return finish("C07", tier, seed, "model_checking", res, t0,
                   assumptions=["block cipher = arbitrary injective function E with inverse D (holds for every block cipher; SM4 itself is C02)",
-                               "data lengths beyond the listed ones are outside the bound (the per-block loops are uniform)"],
-                  explanation="Kani/CBMC on the real mode code; the textbook modes are written independently in the harness (CTR counter as a 128-bit big-endian integer with wrapping add).",
-                  rule="one obligation per (mode, data length), IV length, CBC-decrypt length; contents symbolic")
+                               "Kani: data up to 64 bytes with every content symbolic (incl. the IV in CTR); engine M: the same modes with E, D uninterpreted at data lengths up to 1024 bytes (4097 thorough), symbolic data and IV - except CTR beyond 33 bytes, where the IV is one of five structured values (all-ones, low/high half all-ones, ...) because each increment forks on its carry chain", "decryption returns the original data: from equality with the textbook modes plus D(E(x)) = x (C02)"],
+                  explanation="Engine M (MIR -> z3) and Kani/CBMC on the real mode code; the textbook modes are written independently in the harness (CTR counter as a 128-bit big-endian integer with wrapping add).",
+                  rule="one obligation per (mode, data length, engine), IV length, CBC-decrypt length; contents symbolic")
